@@ -25,6 +25,8 @@ META = {
 }
 META["technique"] += '; narrowing-before-use dataflow for values that may be Undefined (context.resolve and lambda results); operand-normalisation dominance in the comparison helpers; presence-by-key rule on the lookup functions'
 META["level_text"] += " Also decided, as necessary conditions of the second sentence (R4b, R5, R6): values that may be an Undefined of the configured class are narrowed before they are compared, hashed or stringified; _eq/_lt/_contains resolve __liquid__() before Python comparison can consult an undefined operand's own __eq__; lookups decide 'missing' from the failed key, never from a nil/false value."
+META["technique"] += "; sibling agreement between the undefined classes (a relaxed hook must have the default's body, operands of and/or chains compared as sets)"
+META["level_text"] += " Also decided (R8): every hook that a strict undefined class answers without raising answers exactly as the default Undefined does."
 
 U = "liquid2.undefined.Undefined"
 VALUE_HOOKS = {"__contains__", "__eq__", "__getitem__", "__len__", "__iter__", "__str__", "__int__", "__hash__", "__reversed__", "__bool__"}
@@ -183,6 +185,52 @@ def run(prog: Program, res: Result) -> None:  # noqa: PLR0912, PLR0915
         res.ok("C16.R2", f"{iu.file}:{iu.node.lineno} is_undefined", what, "no attribute access on obj")
     else:
         res.fail("C16.R2", file="liquid2/undefined.py", line=iu.node.lineno if iu else 0, qualname="is_undefined", construct="is_undefined body", message="is_undefined inspects the object (would trip StrictUndefined) or changed meaning", what=what)
+
+    # ------------------------------------------------------------------ R8 relaxed hooks agree with the default
+    res.rule("C16.R8", "a hook that a strict undefined class answers without raising (its body is not an unconditional `raise UndefinedError`) answers exactly as the default Undefined does (same return expression; __bool__ is compared with the truth value Python derives from Undefined.__len__): otherwise a strict render can succeed with output that differs from the default policy's")
+    def _canon(e: ast.AST) -> str:
+        """Text of an expression with the operands of and/or chains sorted (pure tests commute)."""
+        if isinstance(e, ast.BoolOp):
+            op = " or " if isinstance(e.op, ast.Or) else " and "
+            return "(" + op.join(sorted(_canon(v) for v in e.values)) + ")"
+        if isinstance(e, ast.UnaryOp) and isinstance(e.op, ast.Not):
+            return f"not {_canon(e.operand)}"
+        return norm(e)
+
+    def _body_sig(fn: ast.FunctionDef) -> list[str]:
+        out = []
+        for st in fn.body:
+            if isinstance(st, ast.Expr) and isinstance(st.value, ast.Constant) and isinstance(st.value.value, str):
+                continue
+            out.append(f"return {_canon(st.value)}" if isinstance(st, ast.Return) and st.value is not None else norm(st))
+        return out
+
+    n8 = 0
+    for sc in [strict, *prog.subclasses(strict, strict=True)]:
+        for name, m in sorted(sc.methods.items()):
+            if not (name.startswith("__") and name.endswith("__")) or name in ("__init__", "__getattribute__", "__slots__"):
+                continue
+            if _all_paths_raise(m.node, "UndefinedError"):
+                continue
+            n8 += 1
+            site = f"{sc.file}:{m.node.lineno} {sc.qualname}.{name}"
+            what = f"{sc.qualname}.{name} (does not raise) answers as Undefined.{name}"
+            dm = und.methods.get(name)
+            if dm is not None:
+                expected = _body_sig(dm.node)
+                src = f"Undefined.{name}"
+            elif name == "__bool__" and und.methods.get("__len__") is not None and [norm(r.value) for r in ast.walk(und.methods["__len__"].node) if isinstance(r, ast.Return)] == ["0"]:
+                expected = ["return False"]
+                src = "bool(Undefined) (derived from Undefined.__len__ returning 0)"
+            else:
+                res.fail("C16.R8", file=sc.file, line=m.node.lineno, qualname=f"{sc.qualname}.{name}", construct=f"{sc.qualname}.{name}: no default counterpart", message=f"{sc.qualname}.{name} answers without raising but the default Undefined has no `{name}` to compare it with (not decided)", what=what)
+                continue
+            got = _body_sig(m.node)
+            if got == expected:
+                res.ok("C16.R8", site, what, f"same body as {src}: {'; '.join(expected)[:80]}")
+            else:
+                res.fail("C16.R8", file=sc.file, line=m.node.lineno, qualname=f"{sc.qualname}.{name}", construct=f"{sc.qualname}.{name} differs from the default's", message=f"{sc.qualname}.{name} answers `{'; '.join(got)[:80]}` without raising, the default policy answers `{'; '.join(expected)[:80]}` ({src}): wherever Python reaches this hook directly (list membership/equality/index, str() of a container) a render under this policy succeeds with output that differs from the default policy's", what=what)
+    res.floor("C16.R8", "non-raising hooks of the strict undefined classes", n8, 2)
 
     # ------------------------------------------------------------------ R3 provenance
     res.rule("C16.R3", "every env.undefined(...) construction is the handler of a failed lookup (except KeyError/TypeError/IndexError around scope/get_item/loops) or one of the engine-absent objects (block.super, parentloop, missing macro / macro argument)")
